@@ -101,3 +101,15 @@ def type_truth(draft, name):
 def type_names(draft):
     base = ["array", "boolean", "integer", "null", "number", "object", "string"]
     return sorted(base + (["any"] if draft == "draft3" else []))
+
+
+# Names a draft's metaschema may constrain besides the assertion/applicator vocabulary above: the draft's own annotation and
+# identification keywords (taken from the published metaschemas), and the sibling modifiers.  `maxDecimal` is a Draft 2 leftover
+# that the bundled Draft 3 file has always carried.
+META_EXTRA = {
+    "draft3": {"$schema", "id", "title", "description", "default", "required", "exclusiveMinimum", "exclusiveMaximum", "maxDecimal"},
+    "draft4": {"$schema", "id", "title", "description", "default", "definitions", "exclusiveMinimum", "exclusiveMaximum"},
+    "draft6": {"$schema", "$id", "title", "description", "default", "definitions", "examples"},
+    "draft7": {"$schema", "$id", "title", "description", "default", "definitions", "examples", "$comment", "readOnly", "writeOnly",
+               "contentEncoding", "contentMediaType", "then", "else"},
+}
